@@ -13,41 +13,51 @@ def build():
 
 def run(tier, deadline):
     t0 = time.time(); build()
-    env = dict(os.environ, CAT_LIB=vbuild.build("prod"))
+    # the library as configured here (prod, -O0) and, in the thorough tier, the quick-sized enumeration once more on the library built the way a
+    # default ./configure builds it (dist: -O2, _FORTIFY_SOURCE=2, the repository's hardening flags)
+    envs = {v: dict(os.environ, CAT_LIB=vbuild.build(v)) for v in (("prod",) if tier == "quick" else ("prod", "dist"))}
     N = 4 if tier == "quick" else 6
     jobs = [[loc, str(N), str(i), "8"] for loc in ("C", "C.UTF-8") for i in range(8)]
     jobs += [[loc, "3" if tier == "quick" else "4", str(i), "4"] for loc in ("C>C.UTF-8", "C.UTF-8>C") for i in range(4)]      # locale histories
     jobs += [[loc, "sweep", str(i), "8"] for loc in (("C.UTF-8",) if tier == "quick" else ("C.UTF-8", "C", "C>C.UTF-8")) for i in range(8)]   # every code point
+    def mkjobs(tier):
+        N = 4 if tier == "quick" else 6
+        jobs = [[loc, str(N), str(i), "8"] for loc in ("C", "C.UTF-8") for i in range(8)]
+        jobs += [[loc, "3" if tier == "quick" else "4", str(i), "4"] for loc in ("C>C.UTF-8", "C.UTF-8>C") for i in range(4)]      # locale histories
+        jobs += [[loc, "sweep", str(i), "8"] for loc in (("C.UTF-8",) if tier == "quick" else ("C.UTF-8", "C", "C>C.UTF-8")) for i in range(8)]   # every code point
+        return jobs
+    jobs = [("prod", j) for j in jobs] + ([("dist", j) for j in mkjobs("quick")] if tier == "thorough" else [])
     viol = {}; internal = []; tot = {"calls": 0, "faulted_left_to_C01": 0}; timed_out = []
-    def one(j):
+    def one(vj):
+        v, j = vj
         left = deadline - (time.time() - t0)
-        try: return j, subprocess.run([BIN] + j, capture_output=True, text=True, env=env, timeout=max(5, left))
-        except subprocess.TimeoutExpired: timed_out.append(j); return j, None
+        try: return vj, subprocess.run([BIN] + j, capture_output=True, text=True, env=envs[v], timeout=max(5, left))
+        except subprocess.TimeoutExpired: timed_out.append(vj); return vj, None
     with ThreadPoolExecutor(16) as ex:
-        for j, r in ex.map(one, jobs):
+        for (v, j), r in ex.map(one, jobs):
             if r is None: continue
             if r.returncode != 0: internal.append(f"{j}: exit {r.returncode} {r.stderr[-200:]}"); continue
             for ln in r.stdout.splitlines():
                 if not ln.startswith("{"): continue
                 o = json.loads(ln)
-                if o["t"] == "viol": e = viol.setdefault(o["sig"], [0, o["case"]]); e[0] += o["n"]
+                if o["t"] == "viol": e = viol.setdefault(o["sig"], [0, o["case"], v]); e[0] += o["n"]
                 elif o["t"] == "stat":
                     for k in tot: tot[k] += o[k]
     if internal:
         for m in internal[:10]: print("INTERNAL-ERROR:", m, file=sys.stderr)
         return 2
-    violations = [common.Violation(sig, "", f"property=C15\nsignature={sig}\ncase={case}\n", n) for sig, (n, case) in sorted(viol.items())]
+    violations = [common.Violation(sig, "" if v == "prod" else "library build: " + v, f"property=C15\nvariant={v}\nsignature={sig}\ncase={case}\n", n) for sig, (n, case, v) in sorted(viol.items())]
     def confirm(v):
         kv = dict(l.split("=", 1) for l in v.replay_text.strip().splitlines()); return replay(kv, quiet=True) == 1
     cov = {"evaluations": tot["calls"], "distinct_nontrivial": max(2, tot["calls"] - tot["faulted_left_to_C01"]),
            "rule": "every code point 1..0x110100 through wcrtomb_s and wctomb_s (dmax 1,3,5,8) and its encoding back through mbstowcs_s/mbsrtowcs_s; locale histories C>C.UTF-8 and C.UTF-8>C (every converter called once under the first locale, the enumeration run under the second, in one process); multibyte strings of 0..N characters over {a, e-acute, euro sign, U+1F600} plus the invalid units {80, C3 alone, ED A0 80, F5} (at most one invalid unit), wide strings over {a, U+E9, U+20AC, U+1F600, U+D800, U+110000}; dmax and len each below/at/above the converted length; dest NULL (query) or exact-fit in guarded memory; histories on the conversion state: 1..3 bytes of the first character already consumed into the mbstate_t by mbrtowc, mbsrtowcs_s (converting and query form) continuing on the rest, reference = libc continuing from a copy of that state; wide sources of single-byte characters with no terminator, flush against an inaccessible page, len <= their number < dmax (wcstombs_s, wcsrtombs_s); locales C and C.UTF-8; oracle: *retvalp, dest, *srcp equal libc's converter limited to len; terminator; ESNOSPC with dest cleared when the result does not fit; error with dest cleared on an invalid sequence and the same mbstate_t accepted by a following valid conversion; wide->mb->wide identity; non-trivial = calls that did not end in a memory fault (those are C01's)",
            "samples": ["C.UTF-8 mbstowcs_s 61c3a9e282ac dmax=4 len=3", "C.UTF-8 wcsrtombs_s 61.20ac. dmax=2 len=3", "C.UTF-8 mbsrtowcs_s c3a9c3 dmax=2 len=2 (truncated sequence, then reuse of the state)", "C wctomb_s e9. dmax=1", "C.UTF-8 mbsrtowcs_s e282ac61 dmax=3 len=2 split=2 (two bytes of the euro sign pending in the state)", "C.UTF-8 wcsrtombs_s 61.62. dmax=3 len=2 unterminated"],
-           "max_characters": N, "calls_ending_in_a_fault_left_to_C01": tot["faulted_left_to_C01"], "jobs_timed_out": len(timed_out)}
+           "max_characters": N, "calls_ending_in_a_fault_left_to_C01": tot["faulted_left_to_C01"], "jobs_timed_out": len(timed_out), "library_builds": sorted(envs)}
     return common.finish("C15", tier, t0, cov, violations, ["libc's own converters are the reference", "an empty conversion result is not judged (the documented status differs between the converters)"], confirm=confirm, exhaustive=not timed_out)
 
 
 def replay(kv, quiet=False):
     build(); c = kv["case"].split()
-    r = subprocess.run([BIN, "replay"] + c, capture_output=True, text=True, env=dict(os.environ, CAT_LIB=vbuild.build("prod")))
+    r = subprocess.run([BIN, "replay"] + c, capture_output=True, text=True, env=dict(os.environ, CAT_LIB=vbuild.build(kv.get("variant", "prod"))))
     if not quiet: sys.stdout.write(r.stdout); sys.stderr.write(r.stderr)
     return r.returncode
